@@ -1,6 +1,6 @@
 (* Instructions of the Bardolph VM: Instruction(op_code, param0, param1). *)
 From Coq Require Import ZArith String List Bool PrimFloat.
-From Bardolph Require Import Gen.Codes Time.TimeSpec Time.TimePattern Lang.Value.
+From Bardolph Require Import Gen.Codes Time.TimeSpec Time.TimeCore Lang.Value.
 Open Scope string_scope.
 Open Scope list_scope.
 Import ListNotations.
